@@ -190,6 +190,23 @@ func crashOnce(self, dir, script string, work []step, k int, after bool, mode st
 	// re-open read-write (twice for the close mode), then read-only
 	okRW, okRO, integ := 0, 0, "-"
 	var d *dumpT
+	// every other case: the FIRST re-open after the process death is a read-only one (nothing has
+	// recovered or checkpointed the write-ahead log yet); what it shows must be what the read-write
+	// re-open shows afterwards
+	roFirst := ""
+	roFirstTried := seq%2 == 0
+	if roFirstTried {
+		if ro, err := redka.OpenRead(dbFile, nil); err == nil {
+			if d0, err := takeDump(ro.RO); err == nil {
+				roFirst = strings.TrimSuffix(d0.render(ident), fmt.Sprint(d0.fk))
+			} else {
+				roFirst = "unreadable: " + err.Error()
+			}
+			ro.Close()
+		} else {
+			roFirst = "cannot open: " + err.Error()
+		}
+	}
 	reopens := 1
 	if mode == "close" {
 		reopens = 2
@@ -215,6 +232,12 @@ func crashOnce(self, dir, script string, work []step, k int, after bool, mode st
 			okRO = 1
 		}
 		ro.Close()
+	}
+	if roFirstTried && (d == nil || roFirst != strings.TrimSuffix(d.render(ident), fmt.Sprint(d.fk))) {
+		// a database that was never created (death before the schema was committed) has no tables to read
+		if !(d != nil && len(d.keys) == 0 && d.nChild == 0 && strings.Contains(roFirst, "no such table")) {
+			okRO = 0
+		}
 	}
 	seq++
 	now := nowMs()
